@@ -47,6 +47,7 @@ int main(int argc, char** argv) {
   else if (!strcmp(profile, "c05")) { w_realloc = 45; w_alloc = 25; w_free = 15; w_expand = 8; }
   else if (!strcmp(profile, "c10")) { w_heap = 20; w_query = 15; w_alloc = 35; w_free = 15; w_realloc = 8; }
   else if (!strcmp(profile, "c06")) { w_bad = 40; w_alloc = 30; w_free = 20; w_realloc = 8; w_visit = 4; }
+  else if (!strcmp(profile, "c15")) { w_alloc = 55; w_free = 25; w_realloc = 8; w_heap = 3; w_query = 3; w_visit = 2; max_size = 6u << 20; }
   else if (!strcmp(profile, "c12")) { w_visit = 12; w_heap = 8; w_collect = 2; w_alloc = 40; w_free = 30; }
   else { fprintf(stderr, "unknown profile %s\n", profile); return 2; }
 
@@ -63,6 +64,12 @@ int main(int argc, char** argv) {
   vf_logf("\"}");
   vf_log_line_end();
 
+  if (!strcmp(profile, "c15")) {   /* two managed arenas (one exclusive) + heaps bound to them; a worker thread leaves blocks of a bound heap behind */
+    int a1 = arena_setup((96u << 20) + 77777, 4096 * 3 + (size_t)vf_randn(5) * 4096, 1);
+    int a2 = arena_setup((72u << 20), 65536 + 4096 * (size_t)vf_randn(9), 0);
+    heap_new_in_arena_op(a1); heap_new_in_arena_op(a2); heap_new_in_arena_op(a1);
+    heap_new_op();
+  }
 #if defined(VF_SHIM)
   vf_fault_at = fault_at; vf_fault_persist = fault_persist; vf_fault_kind = fault_kind;
 #endif
